@@ -1219,3 +1219,43 @@ package pfcp
 //@     assert [seid]  arg1 == sr.SEID && arg0 == iface(laddr)
 //@   at call serveUSAReport:
 //@     assert [seid]  arg1 == sr.SEID && arg0 == iface(laddr)
+
+// ---------------------------------------------------------------------------------------------
+// Dispatch (C06, C07, C08).  A-PARSED (assumed of message.Parse): a parsed message is a non-nil pointer of its type,
+// with a header, and the grouped-IE lists of session requests hold no nil entries.
+//@ pred parsedWF(m message.Message) =
+//@      (typeis(m, *message.HeartbeatRequest) ==> m.(*message.HeartbeatRequest) != nil) &&
+//@      (typeis(m, *message.AssociationSetupRequest) ==> m.(*message.AssociationSetupRequest) != nil) &&
+//@      (typeis(m, *message.AssociationUpdateRequest) ==> m.(*message.AssociationUpdateRequest) != nil) &&
+//@      (typeis(m, *message.AssociationReleaseRequest) ==> m.(*message.AssociationReleaseRequest) != nil) &&
+//@      (typeis(m, *message.SessionEstablishmentRequest) ==> m.(*message.SessionEstablishmentRequest) != nil && estReqWF(m.(*message.SessionEstablishmentRequest))) &&
+//@      (typeis(m, *message.SessionModificationRequest) ==> m.(*message.SessionModificationRequest) != nil && modReqWF(m.(*message.SessionModificationRequest))) &&
+//@      (typeis(m, *message.SessionDeletionRequest) ==> m.(*message.SessionDeletionRequest) != nil) &&
+//@      (typeis(m, *message.SessionReportResponse) ==> m.(*message.SessionReportResponse) != nil)
+
+//@ func (s *PfcpServer) reqDispacher(msg message.Message, addr net.Addr) (err error)
+//@   requires s != nil && srvInv(s) && msg != nil && hdrOf(msg) != nil && addr != nil && parsedWF(msg)
+//@   ensures [inv] srvInv(s)
+//@   modifies *
+//@   reveal linked
+//@   flag perreturn
+//@   serves C06 C07 C08 C05
+//@   at call handleHeartbeatRequest:
+//@     assert [same] arg1 == addr && iface(arg0) == msg
+//@   at call handleAssociationSetupRequest:
+//@     assert [same] arg1 == addr && iface(arg0) == msg
+//@   at call handleSessionEstablishmentRequest:
+//@     assert [same] arg1 == addr && iface(arg0) == msg
+//@   at call handleSessionModificationRequest:
+//@     assert [same] arg1 == addr && iface(arg0) == msg
+//@   at call handleSessionDeletionRequest:
+//@     assert [same] arg1 == addr && iface(arg0) == msg
+
+//@ func (s *PfcpServer) rspDispacher(msg message.Message, addr net.Addr, req message.Message) (err error)
+//@   requires s != nil && srvInv(s) && msg != nil && hdrOf(msg) != nil && addr != nil && parsedWF(msg) && req != nil && hdrOf(req) != nil
+//@   ensures [inv] srvInv(s)
+//@   modifies *
+//@   flag perreturn
+//@   serves C09 C07 C05
+//@   at call handleSessionReportResponse:
+//@     assert [same] arg1 == addr && iface(arg0) == msg && arg2 == req
